@@ -53,7 +53,7 @@ Proof.
         rewrite lookup_update_other in Lx by auto. apply S1. exists itx. auto.
       - intros r0 I. eapply good_mext; eauto. }
     assert (Gr1 : good (update w (set_mark it) its) seeds r) by (eapply good_mext; eauto).
-    destruct (hasflag (iflags it) LEAF_BIT) eqn:Lf.
+    destruct (noscan it) eqn:Lf.
     + now apply IH.
     + apply IH; auto. destruct SI1 as [S1 S2]. split; auto.
       intros r0 [<-|I]; auto.
@@ -190,7 +190,7 @@ Proof.
   cbn zeta. split; [|vm_compute; reflexivity].
   set (g := run _ gc_init).
   assert (E : exists itA itB rw, items g = [(8192, itB); (4096, itA)] /\ roots g = [(256, (64, rw))] /\
-     In 4096 rw /\ hasflag (iflags itA) LEAF_BIT = false /\ In 8192 (iwords itA)).
+     In 4096 rw /\ noscan itA = false /\ In 8192 (iwords itA)).
   { do 3 eexists. subst g. vm_compute. repeat split; auto 10. }
   destruct E as (itA & itB & rw & EI & ER & IR & LA & WA).
   apply (reach_step _ _ 4096 8192 itA).
